@@ -30,6 +30,7 @@ interpreter on every run).
 import ast
 
 OWNED, STORED, VIEW = 0, 1, 2
+HCLASS = -1      # (not a buffer at all: one of the two header-tuple classes held in a local)
 NAMES = {OWNED: "Owned", STORED: "Stored", VIEW: "View"}
 
 
@@ -41,6 +42,8 @@ def worst(t):
 
 
 def join(a, b):
+    if a == HCLASS and b == HCLASS:
+        return HCLASS
     if isinstance(a, tuple) and isinstance(b, tuple) and len(a) == len(b):
         return tuple(join(x, y) for x, y in zip(a, b))
     return max(worst(a), worst(b))
@@ -80,6 +83,8 @@ class Analysis:
         if isinstance(n, ast.Constant):
             return OWNED
         if isinstance(n, ast.Name):
+            if n.id in ("HeaderTuple", "NeverIndexedHeaderTuple") and n.id not in env:
+                return HCLASS                        # one of the two header classes as a value
             return env.get(n.id, VIEW)
         if isinstance(n, ast.Tuple):
             return tuple(self.E(e, env) for e in n.elts)
@@ -125,6 +130,9 @@ class Analysis:
     def call(self, n, env):
         f = n.func
         args = [self.E(a, env) for a in n.args] + [self.E(k.value, env) for k in n.keywords]
+        if isinstance(f, ast.Name) and env.get(f.id) == HCLASS and not n.keywords \
+                and not any(isinstance(a, ast.Starred) for a in n.args):
+            return tuple(args)                       # cls(name, value): the tuple of its arguments
         if isinstance(f, ast.Name):
             if f.id in ("bytes", "bytearray") and len(n.args) <= 1:
                 return OWNED
